@@ -206,6 +206,16 @@ package taskfile
 //@ callers (*Client).Do (*Client).Get (*Client).Head (*Client).Post http.Get http.Head http.Post git.Clone git.PlainClone git.CloneContext : taskfile.RemoteExists taskfile.(*HTTPNode).ReadContext taskfile.(*GitNode).ReadContext tmp.*   [C20]
 //@ callers (RemoteNode).ReadContext (*HTTPNode).ReadContext (*GitNode).ReadContext : taskfile.(*Reader).readRemoteNodeContent taskfile.(*HTTPNode).Read taskfile.(*GitNode).Read   [C20]
 //@ callers (*Reader).readRemoteNodeContent : taskfile.(*Reader).readNodeContent   [C20]
+// the bytes a download hands to the reader are the reader's own - the result of reading THIS response to its end, made
+// for this call: they are checksummed, shown for approval, cached and parsed after the download has returned, while other
+// includes are being downloaded (a buffer that goes back to a pool, or is shared between downloads, changes under them)
+//@ ghost var bodyBytes []byte scratch
+//@ func (*HTTPNode).ReadContext
+//@   modifies heap
+//@   site io.ReadAll#1 ghost bodyBytes := result.0
+//@   ensures result.1 == nil ==> result.0 == bodyBytes                                                          [C20]
+//@   nosite (*Pool).*                                                                                           [C20,C18]
+//@   nosite (*Buffer).*                                                                                         [C20]
 //@ func (*Reader).readNodeContent
 //@   site (Node).Read#0 requires !isRemote                                                                     [C20]
 
